@@ -63,7 +63,7 @@ type PubSpec struct {
 }
 
 type ShutSpec struct {
-	Ctx string `json:"ctx"` // live | expired | cancel-later
+	Ctx string `json:"ctx"` // live | expired | cancel-later | expired-cause | cause-later (the last two: a context cancelled with a cause, whose Err() is still context.Canceled)
 }
 
 var topicPool = []string{"", "a", "b", "c"}
@@ -108,6 +108,7 @@ type profile struct {
 	cancels     int // max cancel actions
 	minSubs     int
 	prefillBias bool
+	prefillPct  int // percent of real-replayer scenarios that get the long prefill (up to 3 x capacity, so that the ring wraps) although prefillBias is off
 }
 
 var profiles = map[string]profile{
@@ -115,7 +116,7 @@ var profiles = map[string]profile{
 	"C04": {name: "C04", faults: 10, failCancel: 30, replayErr: 0, realRep: 100, resume: 80, shutdowns: []int{0, 0, 0, 1}, repFaults: 0, cancels: 1, minSubs: 1, prefillBias: true},
 	"C06": {name: "C06", faults: 75, failCancel: 60, replayErr: 20, realRep: 40, resume: 20, shutdowns: []int{0, 0, 1, 1, 2}, repFaults: 5, cancels: 3, minSubs: 1},
 	"C07": {name: "C07", faults: 15, failCancel: 40, replayErr: 5, realRep: 30, resume: 10, shutdowns: []int{1, 1, 2, 3}, repFaults: 5, cancels: 2, minSubs: 0},
-	"C17": {name: "C17", faults: 50, failCancel: 30, replayErr: 10, realRep: 50, resume: 20, shutdowns: []int{0, 0, 0, 1}, repFaults: 60, cancels: 1, minSubs: 2},
+	"C17": {name: "C17", faults: 50, failCancel: 30, replayErr: 10, realRep: 50, resume: 30, shutdowns: []int{0, 0, 0, 1}, repFaults: 60, cancels: 1, minSubs: 2, prefillPct: 40},
 }
 
 func genScenario(p profile) func(*rapid.T) Scenario {
@@ -178,7 +179,7 @@ func genScenario(p profile) func(*rapid.T) Scenario {
 		}
 		nsh := stats.From(t, p.shutdowns, "nshutdowns")
 		for i := 0; i < nsh; i++ {
-			sc.Shutdowns = append(sc.Shutdowns, ShutSpec{Ctx: stats.From(t, []string{"live", "live", "expired", "cancel-later"}, "shutctx")})
+			sc.Shutdowns = append(sc.Shutdowns, ShutSpec{Ctx: stats.From(t, []string{"live", "live", "live", "live", "expired", "expired", "cancel-later", "cancel-later", "expired-cause", "cause-later"}, "shutctx")})
 		}
 		if sc.Replayer != "nil" && stats.Pct(t, "repfault") < p.repFaults {
 			switch stats.Pick(t, 3, "repfaultkind") {
@@ -191,7 +192,7 @@ func genScenario(p profile) func(*rapid.T) Scenario {
 			}
 			sc.PanicKind = stats.From(t, []string{"", "error", "runtime"}, "panickind")
 		}
-		if p.prefillBias {
+		if p.prefillBias || ((sc.Replayer == "finite" || sc.Replayer == "valid") && stats.Pct(t, "longprefill") < p.prefillPct) {
 			sc.Prefill = stats.Pick(t, 3*sc.Cap+1, "prefill")
 		} else if stats.Pct(t, "hasprefill") < 25 {
 			sc.Prefill = stats.Pick(t, 8, "prefill")
@@ -259,7 +260,7 @@ func genSmallScenario(p profile) func(*rapid.T) Scenario {
 			sc.Cancels = []int{stats.Pick(t, ns, "cancelwho")}
 		}
 		if n := stats.From(t, p.shutdowns, "nshutdowns"); n > 0 {
-			sc.Shutdowns = []ShutSpec{{Ctx: stats.From(t, []string{"live", "live", "expired"}, "shutctx")}}
+			sc.Shutdowns = []ShutSpec{{Ctx: stats.From(t, []string{"live", "live", "live", "live", "expired", "expired", "expired-cause"}, "shutctx")}}
 			if n > 1 {
 				sc.Shutdowns = append(sc.Shutdowns, ShutSpec{Ctx: "live"})
 			}
